@@ -830,11 +830,22 @@ def main(run):
         cfg.update({"tree": True, "_pset": pset, "_codes": codes, "grid": None, "preeval": [rng.random() < 0.5 for _ in range(cfg["n"])],
                     "nbr": rng.randint(cfg["n"], 12), "mincutoff": rng.choice([1, 2, 20]), "genos": [], "alias": []})
         do(cfg)
-    # default nbrindsmodel=-1 (2000 individuals modelled per generation)
+    # default nbrindsmodel=-1 (2000 individuals modelled per generation): oracle in both tiers; in the
+    # thorough tier two of them also go through the model, each in a shard of its own (2 GB, 90 s each)
+    big_terms, big_cases = [], []
     for i in range(run.scale(1, 4)):
         cfg = gen_harm(rng, n=rng.randint(2, 4), ngen=1)
         cfg.update({"nbr": -1, "mincutoff": 20})
-        do(cfg, corr=run.thorough)
+        if run.thorough and i < 2:
+            n0 = len(terms)
+            do(cfg)
+            big_terms += terms[n0:]
+            big_cases += cases[n0:]
+            del terms[n0:], cases[n0:]
+        else:
+            do(cfg, corr=False)
 
     run.extra_cov["skipped_nonterminating"] = stats["skipped"]
     run.correspond("loops", "C03", terms, cases, shard=run.scale(60, 120))
+    for i, (t, c) in enumerate(zip(big_terms, big_cases)):
+        run.correspond("harm_default_%d" % i, "C03", [t], [c])
